@@ -27,6 +27,9 @@ use std::{
 
 // ---------------------------------------------------------------- record format
 pub fn payload(id: i64, sz: i64, unit: usize) -> String {
+    if sz == 0 {
+        return String::new(); // a record that encodes to nothing
+    }
     let total = sz as usize * unit;
     let head = format!("#{},{},", id, sz);
     let fill = (b'a' + (id.rem_euclid(26)) as u8) as char;
